@@ -71,11 +71,30 @@ def syntactic_tags(prog: dict) -> list:
 
 
 # tags that matter only to some properties (a list created in the loop prints the right values: it only leaks)
-TAG_SCOPE = {"list-created-in-loop": {"C09"}, "list-alias-created": {"C09"}}
+# list-alias-mutation is a finding about VALUES (Python aliases, the firmware copies); C09 judges memory only, so programs that
+# mutate through an alias stay in its clean stratum (their printed values are not compared there)
+TAG_SCOPE = {"list-created-in-loop": {"C09"}, "list-alias-created": {"C09"},
+             "list-alias-mutation": {"C01", "C02", "C03", "C04", "C05", "C06", "C07", "C08"}}
+
+
+_STILL_KNOWN: set | None = None
+
+
+def _still_known() -> set:
+    """Ids of the findings whose status is `known` in the committed list: only those keep stimuli out of the clean stratum
+    (a `fixed` finding excludes nothing - its trigger is back among the clean stimuli)."""
+    global _STILL_KNOWN
+    if _STILL_KNOWN is None:
+        from .result import KNOWN_FILE
+        try:
+            _STILL_KNOWN = {e["id"] for e in json.loads(KNOWN_FILE.read_text()).get("findings", []) if e.get("status") == "known"}
+        except OSError:
+            _STILL_KNOWN = set()
+    return _STILL_KNOWN
 
 
 def known_tags(feat, prop: str | None = None) -> list:
-    return [t for t in feat if TAG2FINDING.get(t) and (t not in TAG_SCOPE or prop in TAG_SCOPE[t])]
+    return [t for t in feat if TAG2FINDING.get(t) in _still_known() and (t not in TAG_SCOPE or prop in TAG_SCOPE[t])]
 
 
 _HOLDS = {"i": {"i", "b"}, "b": {"b"}, "f": {"i", "b", "f"}, "s": {"s"}, "list": {"list"}}
